@@ -233,7 +233,10 @@ class TrajectoryConstraintsRemover(engines.engine.Engine, CompilerMixin):
             new_problem.add_action(action)
         for init_val in I_prime:
             new_problem.set_initial_value(
-                up.model.Fluent(f"{init_val}", env.type_manager.BoolType()), True
+                up.model.Fluent(
+                    f"{init_val}", env.type_manager.BoolType(), environment=env
+                ),
+                True,
             )
 
         new_problem.clear_quality_metrics()
@@ -382,6 +385,7 @@ class TrajectoryConstraintsRemover(engines.engine.Engine, CompilerMixin):
                         used_names=[f.name for f in monitoring_atoms],
                     ),
                     env.type_manager.BoolType(),
+                    environment=env,
                 )
                 monitoring_atoms.append(fluent)
                 monitoring_atom = env.expression_manager.FluentExp(fluent)
